@@ -623,6 +623,82 @@ func concurrentRun(args []string) {
 		wg.Wait()
 	}
 
+	// ---- one VDR, Create calls that leave the update and / or recovery key to the VDR (it draws them itself): every
+	// call succeeds as it does alone, what it returns resolves, and no two calls are given the same DID
+	{
+		vdr, verr := sidetreelongform.New()
+		if verr != nil {
+			fatalf("%v", verr)
+		}
+
+		upd := pool.Get("ed", "lf-upd-1").Pub.(ed25519.PublicKey)
+
+		var (
+			wg   sync.WaitGroup
+			mu   sync.Mutex
+			seen = map[string]bool{}
+		)
+
+		start := make(chan struct{})
+
+		for w := 0; w < g; w++ {
+			wg.Add(1)
+
+			go func(w int) {
+				defer wg.Done()
+
+				bad := func(detail string) {
+					col.report(mismatch{Kind: "concurrent-result", Key: "concurrent-result:VDR.Create:default-keys", Case: "VDR.Create without explicit keys",
+						Detail: detail})
+				}
+
+				defer func() {
+					if r := recover(); r != nil {
+						bad(fmt.Sprintf("panic: %v", r))
+					}
+				}()
+
+				<-start
+
+				for it := 0; it < 30*rounds; it++ {
+					atomic.AddInt64(&col.nCases, 1)
+
+					doc, _ := lfDocs[1+(it+w)%2].build(pool)
+
+					var opts []vdrapi.DIDMethodOption
+					if (it+w)%3 == 0 {
+						opts = append(opts, vdrapi.WithOption(sidetreelongform.UpdatePublicKeyOpt, upd))
+					}
+
+					res, e := vdr.Create(doc, opts...)
+					if e != nil {
+						bad("Create fails when made at the same time as others (alone it succeeds): " + e.Error())
+						return
+					}
+
+					rd, e := vdr.Read(res.DIDDocument.ID)
+					if e != nil || rd.DIDDocument.ID != res.DIDDocument.ID {
+						bad("what Create returned does not resolve: " + fmt.Sprint(e))
+						return
+					}
+
+					mu.Lock()
+					dup := seen[res.DIDDocument.ID]
+					seen[res.DIDDocument.ID] = true
+					mu.Unlock()
+
+					if dup {
+						bad("two Create calls with keys drawn by the VDR were given the same DID")
+						return
+					}
+				}
+			}(w)
+		}
+
+		close(start)
+		wg.Wait()
+	}
+
 	for _, j := range jobs {
 		col.kind(j.name)
 	}
